@@ -48,6 +48,9 @@ impl SyntaxParserTrait for AssignmentParser {
 
             end = parser.get_index() - 1;
 
+            /* Lookup and registration use the same key */
+            let variable_name = VariableInfo::build_name(&parser.tokinizer.tokens[start..end]);
+
             let expression = AddSubtractParser::parse(parser);
             match expression {
                 Ok(SmartCalcAstType::None) => return expression,
